@@ -1793,3 +1793,64 @@ def t1(cx):
         cx.check(bad is None, None, construct=f"C[Outer.z.f_i, z:{label}]", detail="C field address = Python field locator for every field of a nested struct",
                  bad_detail=(f"field {bad[0]}: C computes obj+{bad[1]!r}, Python obj+{bad[2]!r}  [{' '.join(bad[3].split())}]" if bad else ""), anchor="capi::Field_get_c_offset", sub="field")
     cx.need(n >= 80, f"only {n} C address comparisons")
+
+
+# ------------------------------------------------------------------------------------------ L8 class factory over sequences
+@rule("L8", ["C05", "C01", "C06"], "the array class factory over SEQUENCES of requests: the class obtained for a spelling (shape, axis order) has the layout that spelling gives alone, whatever was requested before")
+def l8(cx):
+    """`itemtype[shape]` makes classes on demand; the class NAME leaves the axis order out.  `Array.mk_arrayclass` of the
+    current source is evaluated, in ONE interpreter, on every ordered pair of spellings of one rank over one item type
+    (2-d: C order, F order, explicit (0,1) / (1,0), static / dynamic extents; 3-d: four orders) and the class obtained
+    SECOND is compared with what the same spelling yields in a fresh interpreter: shape, order, strides, data offset,
+    size, item type.  (A registry keyed by the generated name hands the first class out again -- seeded C05-f.)"""
+    m = cx.m
+    m.func("array::Array.mk_arrayclass")
+    S = slice
+    spell2 = {"[2,3]": (2, 3), "[2:1,3:0]": (S(2, 1), S(3, 0)), "[2:0,3:1]": (S(2, 0), S(3, 1)), "[:,3]": (S(None, None), 3), "[::1,3:0]": (S(None, 1), S(3, 0)), "[:,:]": (S(None, None), S(None, None)), "[::1,::0]": (S(None, 1), S(None, 0))}
+    spell3 = {"[2,3,4]": (2, 3, 4), "[2:2,3:1,4:0]": (S(2, 2), S(3, 1), S(4, 0)), "[2:1,3:2,4:0]": (S(2, 1), S(3, 2), S(4, 0)), "[2:2,3:0,4:1]": (S(2, 2), S(3, 0), S(4, 1))}
+    ATTRS = ("_shape", "_order", "_strides", "_data_offset", "_size", "_is_static_shape")
+
+    def describe(I, c):
+        if not (isinstance(c, Obj) and c.kind == "class"):
+            raise AnalysisError(f"[L8] mk_arrayclass returns {c!r}")
+        d = {}
+        for a in ATTRS:
+            v = c.attrs.get(a)
+            d[a] = tuple(repr(pol(x)) if topoly(x) is not None else repr(x) for x in v) if isinstance(v, (tuple, list)) else (repr(pol(v)) if v is not None and topoly(v) is not None else repr(v))
+        d["_itemtype"] = getattr(c.attrs.get("_itemtype"), "name", repr(c.attrs.get("_itemtype")))
+        return d
+
+    def run(seq, table):
+        lab = Lab(m)
+        I = lab.I
+        out = []
+
+        def thunk():
+            F = I.global_lookup("scalar", "Float64")
+            A = I.global_lookup("array", "Array")
+            for k in seq:
+                out.append(describe(I, I.call(I.getattr(A, "mk_arrayclass"), [F, table[k]], {})))
+            return None
+
+        res = I.explore(thunk, max_paths=4)
+        if len(res) != 1 or res[0]["exc"] is not None:
+            e = res[0]["exc"]
+            raise AnalysisError(f"[L8] mk_arrayclass cannot be evaluated on {seq}: {e.etype + ': ' + str(e.msg) if e else 'fork'}")
+        return out
+
+    n = 0
+    for table in (spell2, spell3):
+        alone = {k: run([k], table)[0] for k in table}
+        cx.need(len({repr(sorted(v.items())) for v in alone.values()}) >= 4, "[L8] fewer than four different class layouts among the spellings: the probe set is not discriminating")
+        badn = 0
+        for a, b in itertools.permutations(table, 2):
+            n += 1
+            got = run([a, b], table)[1]
+            if got != alone[b]:
+                badn += 1
+                if badn <= 2:
+                    diff = [f"{k}: {got[k]} instead of {alone[b][k]}" for k in got if got[k] != alone[b][k]]
+                    cx.bad(None, construct=f"Float64{a} then Float64{b}", detail=f"the class obtained for Float64{b} after Float64{a} was requested differs from the class this spelling gives alone: {'; '.join(diff[:3])} -- objects of the second type are laid out (and read) with the first type's order / extents", anchor="array::Array.mk_arrayclass", sub="sequence")
+        if not badn:
+            cx.ok(None, construct=f"{len(table)} spellings of rank {len(next(iter(table.values())))}: {len(table) * (len(table) - 1)} ordered pairs", detail="the second class of every pair = the class its spelling gives alone", anchor="array::Array.mk_arrayclass", sub="sequence")
+    cx.need(n >= 50, f"only {n} ordered pairs of spellings")
